@@ -174,10 +174,10 @@ def run_shard(args):
     # what the last call said (`hdr=any>HEX` = HEX, `hdr=HEX>any` = any); only the implementation sees the two calls
     script_m = script
     txt = open(script).read()
-    if ">any" in txt or "any>" in txt or " p=any! " in txt:
+    if ">any" in txt or "any>" in txt or " p=any! " in txt or "! cb=" in txt:
         script_m = os.path.join(workdir, "s%d.m.bs" % idx)
         with open(script_m, "w") as f:
-            f.write(re.sub(r" hdr=([0-9a-f-]+)>any\b", " hdr=any", re.sub(r" hdr=any>([0-9a-f-]+)", r" hdr=\1", txt.replace(" p=any! ", " p=any "))))
+            f.write(re.sub(r" hdr=([0-9a-f-]+)>any\b", " hdr=any", re.sub(r" hdr=any>([0-9a-f-]+)", r" hdr=\1", re.sub(r"( caches=[0-9,]+)! ", r"\1 ", txt.replace(" p=any! ", " p=any ")))))
     # implementation; restart after a hang (exit 3) at the next history
     start = 0
     hangs = []
